@@ -802,6 +802,10 @@ impl Walrus {
                 });
                 planned_bytes += (end - cur_off) as usize;
             }
+            if end < block.used {
+                // The budget ran out inside this block: nothing behind it may be read in this call
+                break;
+            }
             cur_idx += 1;
             cur_off = 0;
         }
@@ -1019,8 +1023,12 @@ impl Walrus {
         let mut entries_parsed = 0u32;
         let mut saw_tail = false;
 
+        // Set when parsing stops because of the caller's limits (budget, entry cap, range cut short);
+        // later ranges must then stay untouched, otherwise the entries in between would be skipped.
+        let mut stop_all = false;
+
         for (plan_idx, read_plan) in plan.iter().enumerate() {
-            if entries.len() >= MAX_BATCH_ENTRIES {
+            if stop_all || entries.len() >= MAX_BATCH_ENTRIES {
                 break;
             }
             let buffer = &buffers[plan_idx];
@@ -1028,10 +1036,12 @@ impl Walrus {
 
             while buf_offset < buffer.len() {
                 if entries.len() >= MAX_BATCH_ENTRIES {
+                    stop_all = true;
                     break;
                 }
                 // Try to read metadata header
                 if buf_offset + PREFIX_META_SIZE > buffer.len() {
+                    stop_all = true;
                     break; // Not enough data for header
                 }
 
@@ -1060,6 +1070,7 @@ impl Walrus {
 
                 // Check if we have enough buffer space for the data
                 if buf_offset + entry_consumed > buffer.len() {
+                    stop_all = true;
                     break; // Incomplete entry
                 }
 
@@ -1068,6 +1079,7 @@ impl Walrus {
                     .checked_add(data_size)
                     .unwrap_or(usize::MAX);
                 if next_total > max_bytes && !entries.is_empty() {
+                    stop_all = true;
                     break;
                 }
 
